@@ -7,11 +7,17 @@ use serde_json::{Value, json};
 
 use crate::util::{Args, Out, Rng, catch, par_map, read_ndjson};
 
+// The model's letters a, b (upper case A, B) stand for one of three concrete alphabets, chosen per case:
+// ASCII, two-byte Latin, Cyrillic (byte length and character count differ outside ASCII).
+const ALPHABETS: [[char; 4]; 3] = [['a', 'b', 'A', 'B'], ['é', 'ö', 'É', 'Ö'], ['я', 'ж', 'Я', 'Ж']];
+thread_local! { static ALPHA: std::cell::Cell<usize> = const { std::cell::Cell::new(0) }; }
 fn conc(c: &str) -> char {
-    match c { "a" => 'a', "b" => 'b', "A" => 'A', "B" => 'B', "q" => '\'', "Q" => '’', _ => '?' }
+    let al = ALPHABETS[ALPHA.with(|a| a.get())];
+    match c { "a" => al[0], "b" => al[1], "A" => al[2], "B" => al[3], "q" => '\'', "Q" => '’', _ => '?' }
 }
 fn abst(c: char) -> &'static str {
-    match c { 'a' => "a", 'b' => "b", 'A' => "A", 'B' => "B", '\'' => "q", '’' => "Q", _ => "?" }
+    for al in ALPHABETS { for (i, x) in al.iter().enumerate() { if *x == c { return ["a", "b", "A", "B"][i]; } } }
+    match c { '\'' => "q", '’' => "Q", _ => "?" }
 }
 fn word_of(v: &Value) -> Vec<char> {
     v.as_array().unwrap().iter().map(|c| conc(c.as_str().unwrap())).collect()
@@ -47,6 +53,9 @@ fn fuzzy(d: &dyn Dictionary, q: &[char], bound: u8, cap: usize) -> Value {
 }
 
 fn small_case(ws_v: &Value, queries: &[Vec<char>], rot: usize) -> Vec<Value> {
+    ALPHA.with(|a| a.set((rot / 3) % 3));
+    let queries: Vec<Vec<char>> = queries.iter().map(|q| q.iter().map(|c| conc(abst(*c))).collect()).collect();
+    let queries = &queries[..];
     let ws: Vec<Vec<char>> = ws_v.as_array().unwrap().iter().map(word_of).collect();
     let mut evs = Vec::new();
     let r = catch(|| {
@@ -66,7 +75,7 @@ fn small_case(ws_v: &Value, queries: &[Vec<char>], rot: usize) -> Vec<Value> {
                 a["fz"] = fuzzy(&md, q, bound, cap);
                 merged.push(a);
             }
-            out.push(json!({"ev": "Q", "ws": ws_v, "q": abs_word(q), "bound": bound, "cap": cap,
+            out.push(json!({"ev": "Q", "ws": ws_v, "q": abs_word(q), "bound": bound, "cap": cap, "alphabet": ALPHABETS[ALPHA.with(|a| a.get())].iter().collect::<String>(),
                 "mut": exact_answers(&m, q), "fst": exact_answers(&f, q), "merged": merged,
                 "fzmut": fuzzy(&m, q, bound, cap), "fzfst": fuzzy(&f, q, bound, cap)}));
         }
